@@ -172,6 +172,16 @@ CLAIMED = {
              'operators x a version grid x matching / non-matching names are judged by an independent semver ordering.',
         note='Trusted: the fault catalogue and semver model in vf/oracles/c19.py; running/minimum versions are read from '
              'src/bespokeasm/__init__.py as data.'),
+    'C20': dict(
+        category='exploration', design_ref='DESIGN.md §3 C20',
+        technique='runtime monitoring: structural parsers (json / yaml / plist / xml / zip) and regex classification probes over '
+                  'the files written by real `generate-extension` runs',
+        text='For generated vocabularies (mnemonics that are prefixes of one another, contain ".", digits, single letters; with '
+             'and without macros, registers, predefined names) both editor packages are generated by the real CLI; every file '
+             'must parse, no template placeholder may remain, and the extracted instruction / macro / register / directive / '
+             'data-type / preprocessor patterns must classify every vocabulary word (both cases) over exactly its own span and '
+             'no near-miss identifier.',
+        note='Trusted: vf/post_c20.py inspector; Python re stands in for Oniguruma / Sublime regex on the constructs used.'),
 }
 
 NOT_APPLICABLE = {}
